@@ -107,10 +107,24 @@ fn xml_book(rng: &mut Rng) -> Spreadsheet {
                         }
                         rt.add_rich_text_elements(te);
                     }
+                    let has_text = !rt.get_text().is_empty();
                     cell.set_rich_text(rt);
+                    if rng.chance(1, 3) && has_text {
+                        // a rich text as the cached result of a formula: a shared-string item next to <f> (C01 fix 5);
+                        // not over an empty text: that is the documented "formula without cached value" ambiguity (below)
+                        cell.set_formula("A1&B1");
+                    }
                 }
                 5 => {
-                    cell.set_value_number(rng.range(0, 1000) as f64 / 8.0);
+                    if rng.chance(1, 4) {
+                        // a lazy value that is never resolved: saved as the typed value it stands for (C01 fix 6)
+                        cell.set_value_lazy(*rng.pick(&["42", "12.5", "TRUE", "#N/A", "a<b", " x "]));
+                        if rng.chance(1, 3) {
+                            cell.set_formula("A1");
+                        }
+                    } else {
+                        cell.set_value_number(rng.range(0, 1000) as f64 / 8.0);
+                    }
                 }
                 6 => {
                     cell.set_formula(*rng.pick(&["A1&\"x\"", "IF(A1>1,\"<a&b>\",\"'q'\")", "\"a\"\"b\"&C3", "A1<>B1"]));
@@ -212,7 +226,9 @@ fn model_dump(book: &Spreadsheet) -> String {
             CellRawValue::Numeric(_) => ("n", "~".to_string()),
             CellRawValue::Bool(_) => ("b", "~".to_string()),
             CellRawValue::Error(_) => ("e", "~".to_string()),
-            CellRawValue::Lazy(_) => ("l", "~".to_string()),
+            // an unresolved lazy value: its stored text travels in the last field (`=<text>`, as in C01's dump);
+            // the writer model types it the way `Cell::write_to` does
+            CellRawValue::Lazy(v) => ("l", format!("={}", hex(v))),
         };
         format!(
             "{},{},{},{},{},{},{}",
